@@ -58,6 +58,8 @@ def saturate(ctx, base, schemas, extra_terms=(), rounds=ROUNDS):
     facts = list(base)
     trig = {}
     for s in schemas:
+        ctx.check_fingerprint(s)
+    for s in schemas:
         for d in s.triggers:
             trig.setdefault(d.get_id(), (d, []))[1].append(s)
     decls_by_id = {k: v[0] for k, v in trig.items()}
